@@ -166,6 +166,16 @@ def N2_mark_before_rewind(ctx):
            '; '.join(f'{site(f, e)} rewind without earlier {w}' for e, w in missing[:3]),
            site=site(f, missing[0][0]) if missing else f.loc(f.b['lo']),
            what='a reader validating after the rewind tick must see the failed incarnation\'s writes as estimates, otherwise it validates against an invalid incarnation and may finalise')
+    # a validation that SUCCEEDS leaves its incarnation's writes and history entry alone
+    spurious = []
+    for p in ps:
+        st = [e for e in assigns(p, 'TxState.status')]
+        if st and variant_of(st[-1].d['value']) == 'Unconfirmed':
+            for x in estimate_mark_calls(ctx.facts, p) + [x for x in p.events if is_call(x, 'Beneficiary::invalidate')]:
+                spurious.append((p, x))
+    ctx.ob('N2', f, 'no-mark-on-success', not spurious, '; '.join(f'{site(f, x)} {short(x.d["callee"])} on a path that ends Unconfirmed' for _, x in spurious[:3]),
+           site=site(f, spurious[0][1]) if spurious else f.loc(f.b['lo']),
+           what='estimate marks / history invalidation on a valid incarnation are never cleared again (only a re-execution overwrites them): every reader then blocks on a transaction that will not run again')
     ctx.ob('N2', f, 'no-mark-after-rewind', not order,
            '; '.join(f'{site(f, x)} {short(x.d["callee"])} after rewind at {site(f, e)}' for e, x in order[:3]),
            site=site(f, order[0][1]) if order else f.loc(f.b['lo']),
@@ -1001,6 +1011,19 @@ def L4_loops_observe_abort(ctx):
         ctx.ob('L4', f, 'loop-observes-abort', n_loop >= need and not bad,
                f'looping paths={n_loop}, without is_aborted()={len(bad)}', site=f.loc(f.b['lo']),
                what='after an abort nobody produces the awaited state; a loop that does not read the flag spins or parks forever')
+        if m == 'next':
+            # the claim loop is also the only place a worker learns that the block is done
+            badf = []
+            for p in ps:
+                twice = [b for b in set(p.blocks) if p.blocks.count(b) >= 2]
+                if not twice:
+                    continue
+                fin = [e for e in p.events if e.kind == 'atom' and has_call(e.d['term'], 'SchedulerContext::finished')]
+                terms = [e.d['term'] for e in fin]
+                if not fin or len(terms) != len(set(terms)):
+                    badf.append(p)
+            ctx.ob('L4', f, 'claim-loop-observes-finished', n_loop >= need and not badf, f'looping paths={n_loop}, without a fresh finished()={len(badf)}', site=f.loc(f.b['lo']),
+                   what='once every transaction is committed no claim succeeds any more; a worker that does not re-read finished() each round spins forever and the scope never joins')
     # wait predicates
     for parent in ('run_finality_loop', 'run_commit_loop'):
         pf = sched(ctx, parent)
